@@ -1,5 +1,9 @@
 import PhyVerif.Driver.Json
+import PhyVerif.Driver.Rat
+import PhyVerif.Driver.C01
 import PhyVerif.Model.C04
+import PhyVerif.Model.C04c
+import PhyVerif.Model.C04f
 namespace PhyVerif.Driver
 open Lean PhyVerif.C04
 
@@ -22,8 +26,92 @@ def asArr04 (j : Json) : R Arr := do
 
 def jArr04 (a : Arr) : Json := Json.mkObj [("shape", jNats a.shape), ("data", jList jCell04 a.data)]
 
+def asDir04 (j : Json) : R Dir := do
+  let files ← fld j "files" >>= asArr
+  files.mapM fun f => do
+    let p ← asArr f
+    match p with
+    | [n, a] => do pure (← asStr n, ← asArr04 a)
+    | _ => .error "file entry"
+
+def jTimes04 : TimeSrc → Json
+  | .samplesOverRate s => Json.mkObj [("samples_over_rate", jArr04 s)]
+  | .stored t => Json.mkObj [("stored", jArr04 t)]
+
+def jSamples04 : SampleSrc → Json
+  | .file s => Json.mkObj [("file", jArr04 s)]
+  | .roundedTimes t => Json.mkObj [("rounded_times", jArr04 t)]
+
+def jLoadErr04 : LoadErr → Json
+  | .missing w => Json.mkObj [("error", Json.str ("missing " ++ w))]
+  | .nonMonotone => Json.mkObj [("error", Json.str "non_monotone")]
+  | .conflict w => Json.mkObj [("error", Json.str ("conflict " ++ w))]
+
+def jSparse04 (s : Sparse) : Json :=
+  Json.mkObj [("data", jArr04 s.data), ("cols", jOpt jArr04 s.cols), ("rows", jOpt jArr04 s.rows)]
+
+def jFullErr04 : FullErr → Json
+  | .base e => jLoadErr04 e
+  | .shape w => Json.mkObj [("error", Json.str ("shape " ++ w))]
+  | .scalarAttr f => Json.mkObj [("error", Json.str ("scalar_attr " ++ f))]
+  | .curatedWithoutTemplates => Json.mkObj [("error", Json.str "curated_without_templates")]
+
+/-- `load_full`: the whole of `_load_data` (`C04.loadFull`).  Raw data files are given by their sizes
+in bytes (rows through `C01.memmapRows`, cells are ids `row * ncd + col` of the concatenated
+recording); `items` are the row indices at which `model.traces[...]` is evaluated. -/
+def runLoadFull04 (j : Json) : R Json := do
+  let d ← asDir04 j
+  let rate ← fld j "rate" >>= asRat
+  let tden ← getNat j "tden"
+  let ncd ← getNat j "ncd"
+  let one ← fld j "one" >>= asCell04
+  let raw ← match j.getObjVal? "raw" with
+    | .ok v =>
+      if v.isNull then pure none else do
+        let sizes ← getNats v "sizes"
+        let offset ← getNat v "offset"
+        let isz ← getNat v "itemsize"
+        pure (some (mkParts (rawRows sizes offset isz ncd) ncd))
+    | .error _ => pure none
+  let items ← match j.getObjVal? "items" with
+    | .ok v => asList asItem v
+    | .error _ => pure []
+  match loadFull (β := Nat) (fun a => a) rate tden ncd one raw d with
+  | .error e => pure (jFullErr04 e)
+  | .ok (fv, d') =>
+    match loadFeatures d' fv.nTemplates, loadTemplateFeatures d' fv.nTemplates with
+    | .error e, _ => pure (jFullErr04 e)
+    | _, .error e => pure (jFullErr04 e)
+    | .ok feats, .ok tfeats =>
+    let v := fv.base
+    let positions := match fv.positions with
+      | .file a => Json.mkObj [("file", jArr04 a)]
+      | .linear n => Json.mkObj [("linear", jNat n), ("rows", jRatMat (linearPositions n))]
+    let traces := match raw, fv.traces with
+      | some parts, some tr => Json.arr (items.map fun it => jOpt jMat (tracesGet parts tr it)).toArray
+      | _, _ => Json.null
+    pure (Json.mkObj [
+      ("times", jTimes04 v.times), ("samples", jSamples04 v.samples),
+      ("spike_samples", jInts fv.spikeSamples), ("spike_times", jRats fv.spikeTimes),
+      ("n_spikes", jNat fv.nSpikes), ("n_channels", jNat fv.nChannels), ("n_templates", jNat fv.nTemplates),
+      ("amplitudes", jOpt jArr04 v.amplitudes),
+      ("spike_templates", jArr04 v.spikeTemplates), ("spike_clusters", jArr04 v.spikeClusters),
+      ("channel_map", jArr04 v.channelMap), ("channel_positions", positions),
+      ("channel_shanks", jArr04 fv.channelShanks), ("channel_probes", jArr04 fv.channelProbes),
+      ("templates", jOpt jArr04 v.templates), ("template_cols", jOpt jArr04 fv.templateCols),
+      ("wm", jArr04 fv.wm), ("wmi", jOpt jArr04 v.wmi), ("similar", jArr04 fv.similar),
+      ("spike_attributes", Json.mkObj (fv.spikeAttributes.map fun na => (na.1, jArr04 na.2))),
+      ("traces", traces), ("n_samples", jOpt jNat fv.nSamples), ("duration", jRat fv.duration),
+      ("features", jOpt jSparse04 feats), ("template_features", jOpt jSparse04 tfeats),
+      ("files_after", jList (fun (f : String × Arr) => Json.str f.1) d')])
+
 def runC04 (op : String) (j : Json) : R Json := do
   match op with
+  | "load_full" => runLoadFull04 j
+  | "round" =>
+    -- `np.round` on exact rationals (`C04.roundHalfEven`)
+    let qs ← getRats j "qs"
+    pure (Json.mkObj [("model", jInts (qs.map roundHalfEven))])
   | "load" =>
     let files ← fld j "files" >>= asArr
     let d ← files.mapM fun f => do
